@@ -1,6 +1,6 @@
 (* C12 - options only re-arrange outputs: the axis tables (generated from /repo on every run). *)
 From Coq Require Import ZArith List Bool.
-From PW Require Import Gen.Dims Proofs.DimsProofs.
+From PW Require Import Base.Ops Base.Tensor Model.Dwt Model.Dtcwt Gen.Dims Proofs.DimsProofs Proofs.C12Proofs.
 Open Scope Z_scope.
 
 (* for all 30 ordered pairs of distinct positions and their negative aliases (144 integer pairs) *)
@@ -12,3 +12,23 @@ Print Assumptions C12_dims_correct.
 (* non-vacuity *)
 Example C12_example : ok6 2 (-1) = true /\ get_dimensions6 2 (-1) = (2, 5, 3, 4) /\ get_dimensions6 2 4 = (2, 4, 3, 5).
 Proof. vm_compute. repeat split. Qed.
+
+(* ---- the level loop of DTCWTForward (model; per level: lowpass after that level, highpass planes) ---- *)
+(* skipping levels (any mask) replaces exactly those levels' highpass outputs by nothing; every lowpass and every other level is
+   the unmasked transform's *)
+Theorem C12_skip_mask :
+  forall (R:Type) (Op:Ops R) (s:R) (m:list bool) (x:@ten R) Lo0 h0o Lo1 h1o L0 h0a h0b L1 h1a h1b mode l,
+  DTCWTForward Op s (map (fun _ => false) m) x Lo0 h0o Lo1 h1o L0 h0a h0b L1 h1a h1b mode = Ok l ->
+  DTCWTForward Op s m x Lo0 h0o Lo1 h1o L0 h0a h0b L1 h1a h1b mode = Ok (maskl m l).
+Proof. exact @DTCWTForward_mask. Qed.
+Print Assumptions C12_skip_mask.
+
+(* prefix consistency: the per-level results (hence the first j levels AND the lowpass requested after each of them) of a longer
+   transform are those of the j-level transform *)
+Theorem C12_prefix :
+  forall (R:Type) (Op:Ops R) (s:R) (m1 m2:list bool) (x:@ten R) Lo0 h0o Lo1 h1o L0 h0a h0b L1 h1a h1b mode l, m1 <> nil ->
+  DTCWTForward Op s (m1 ++ m2) x Lo0 h0o Lo1 h1o L0 h0a h0b L1 h1a h1b mode = Ok l ->
+  DTCWTForward Op s m1 x Lo0 h0o Lo1 h1o L0 h0a h0b L1 h1a h1b mode = Ok (firstn (length m1) l).
+Proof. exact @DTCWTForward_prefix. Qed.
+Print Assumptions C12_prefix.
+
